@@ -20,12 +20,14 @@ RUNS = {"quick": 4800, "thorough": 80000, "thorough_s": 400}
 CHUNK = 100
 RUN_TIMEOUT = 120.0
 FINDING = "C11.shape.motif-id-inheritance"
-RULE = ("seeded clean motif networks (cliques 2-4, 4-/5-cycles; 6..14 vertices so motifs share vertices often, thorough "
-        "..40; 1-3 topologies), symmetric targets (uniform/random/assortative/disassortative/spiky; full support or with "
-        "pairings removed), search limits 1..25 or default, prefix histories of 1..6 (thorough ..9) accepted swaps, draw "
-        "schedules uniform/sticky/min/max/mix and acceptance floats uniform/0.0/1-2^-53/extreme, aborts at a scheduler-"
-        "chosen draw, parameter dictionaries with default limits; non-trivial = at least one accepted swap was observed; "
-        "distinct = distinct execution digests")
+RULE = ("seeded clean motif networks (cliques 2-4, 4-/5-cycles, 1-3 topologies; 6..16 vertices when all motifs are single "
+        "edges, 12..32 vertices otherwise so that corner swaps find absent target edges, thorough ..60; motif count 0.5-1.5 x "
+        "vertices, so motifs share vertices), symmetric targets (uniform/random/assortative/disassortative/spiky; full support "
+        "or with pairings removed), search limits 1,2,3,5,10,25 or default, prefix histories of 1..6 (thorough ..9) accepted "
+        "swaps, draw schedules uniform or mixed (each draw with prob. 0.2-0.4 forced to first/last/previous index) and "
+        "acceptance floats uniform / 0.0 / 1-2^-53 / extreme / mixed, aborts at a scheduler-chosen draw, parameter "
+        "dictionaries with default limits; non-trivial = at least one accepted swap was observed; distinct = distinct "
+        "execution digests; distinct_states = distinct final rewired graphs (edge set with annotations)")
 ASSUMPTIONS = ["prefix histories: rewire() is a pure function of the decision stream, so limit L+1 extends limit L by one swap",
                "decision budget exhaustion is inconclusive: rewire() has no termination guarantee and no property claims one",
                "clean networks come from a direct constructor (stub) through the library's own edge-list -> network conversion"]
@@ -111,6 +113,7 @@ def execute(sc, ctx):
     def on_state(L, prev, G, last_float, info):
         where = f"after {L + 1} accepted swap(s)"
         state["swaps"] = L + 1
+        state["final"] = G
         if not structural(ctx, sc, info["G0"], G, where):
             return False
         if state["tainted"]:
@@ -167,7 +170,9 @@ def execute(sc, ctx):
                     ctx.probe("ran_with_default_limits")
                     structural(ctx, sc, info["G0"], G, "after a run with default limits")
     ctx.swaps = state["swaps"]
-    ctx.result(state["swaps"], state["tainted"])
+    fin = state.get("final")
+    ctx.result(state["swaps"], state["tainted"],
+               sorted((tuple(sorted((u, v))), str(d.get(TOP)), d.get(MID)) for u, v, d in fin.edges(data=True)) if fin is not None else None)
     if any(t["size"] > 2 for t in spec["topos"]):
         ctx.probe("network_has_multi_edge_motifs")
 
